@@ -202,7 +202,7 @@ def write_evidence(prop, tier_, t0, merged, rule, floor, extra=None, assumptions
         'wall_s': round(time.time() - t0, 2),
         'violations': int(n_viol),
     }
-    d = os.path.join(VERIF, 'evidence')
+    d = os.environ.get('VERIF_EVIDENCE_DIR') or os.path.join(VERIF, 'evidence')
     os.makedirs(d, exist_ok=True)
     tmp = os.path.join(d, '.%s.json.tmp' % prop)
     with open(tmp, 'w') as f:
@@ -212,13 +212,13 @@ def write_evidence(prop, tier_, t0, merged, rule, floor, extra=None, assumptions
 
 
 def save_replay(prop, violation):
-    d = os.path.join(VERIF, 'replays')
+    d = os.environ.get('VERIF_REPLAY_DIR') or os.path.join(VERIF, 'replays')
     os.makedirs(d, exist_ok=True)
     name = '%s_%s.json' % (prop, digest(violation)[:10])
     path = os.path.join(d, name)
     with open(path, 'w') as f:
         json.dump(violation, f, indent=1, sort_keys=True, default=repr)
-    return os.path.join('replays', name)
+    return os.path.relpath(path, VERIF) if path.startswith(VERIF) else path
 
 
 def conclude(prop, tier_, t0, merged, problems, rule, floor, engine, extra=None,
@@ -276,8 +276,10 @@ def conclude(prop, tier_, t0, merged, problems, rule, floor, engine, extra=None,
         print('%s: %d new violations (%d distinct kinds shown)' % (prop, len(new), len(seen)))
         return 1
     if inconclusive:
-        for r in inconclusive:
-            print('INCONCLUSIVE property=%s reason=%s' % (prop, r))
+        for r in inconclusive[:4]:
+            print('INCONCLUSIVE property=%s reason=%s' % (prop, ' | '.join(str(r).strip().splitlines()[-3:])[:400]))
+        if len(inconclusive) > 4:
+            print('INCONCLUSIVE property=%s (+%d more reasons, see evidence file)' % (prop, len(inconclusive) - 4))
         return 2
     print('%s: held on everything observed' % prop)
     return 0
